@@ -113,3 +113,25 @@ MUTANTS = [
     dict(name='is_write_locked inverted', file=F, find=r'return version & 0x1;', repl=r'return !(version & 0x1);', expect=r'lock\.is_write_locked :: .*postcondition'),
     dict(name='initial version odd', file=F, find=r'std::atomic<int> version\{0\};', repl=r'std::atomic<int> version{1};', expect=r'lock\.construct'),
 ]
+
+
+def replay(ctx, h, r, ins, tr):
+    """Interleaving counterexamples are replayed by a bounded systematic exploration of two-client histories on the real
+    method bodies (this run's extracted text compiled natively against the yield-instrumented atomic stub)."""
+    import shutil
+    import subprocess
+    from vxlib.cbmc import STUBS
+    nat = os.path.join(ctx.work, 'natstub')
+    os.makedirs(nat, exist_ok=True)
+    for f in ('atomic', 'vx_rt.h'):
+        shutil.copy(os.path.join(STUBS, f), os.path.join(nat, f))
+    exe = os.path.join(ctx.work, 'replay_lock_explore')
+    p = subprocess.run(['g++', '-std=c++17', '-O1', '-I', nat, '-I', ctx.work, os.path.join(HERE, '..', '..', 'replay', 'lock', 'explore.cpp'), '-o', exe],
+                       stdout=subprocess.PIPE, stderr=subprocess.STDOUT)
+    if p.returncode != 0:
+        return None, 'native replay build failed: ' + p.stdout.decode()[-500:]
+    try:
+        q = subprocess.run([exe], stdout=subprocess.PIPE, stderr=subprocess.STDOUT, timeout=300)
+    except subprocess.TimeoutExpired:
+        return None, 'native exploration timed out'
+    return q.returncode == 1, 'exploration of two-client histories on the real OptimisticReadWriteLock bodies: ' + q.stdout.decode().strip()[-500:]
